@@ -77,12 +77,10 @@ func (evt *throwEvent) run(ctx context.Context, sender tracing.ISenderHandle) {
 			case startMessage:
 				evt.flow(ctx)
 			case nextActionMessage:
-				if !evt.activated.Load() {
-					evt.activated.Store(true)
-					deliverAction(ctx, m.response, flowAction{sequenceFlows: allSequenceFlows(&evt.outgoing)})
-				} else {
-					deliverAction(ctx, m.response, completeAction{})
-				}
+				// every token that reaches the throw event throws and moves on
+				// (a token coming round again in a loop used to be consumed here)
+				evt.activated.Store(true)
+				deliverAction(ctx, m.response, flowAction{sequenceFlows: allSequenceFlows(&evt.outgoing)})
 			}
 		case <-ctx.Done():
 			evt.tracer.Send(CancellationFlowNodeTrace{Node: evt.element})
